@@ -13,7 +13,7 @@ SPEC = {
              '(b) structured arithmetic lines (number literals incl. grouped / fractional / signed, operators, parentheses, optional comment, '
              'optional multi-byte variable name left of "=", optional multi-byte words before / between / after) for which the character span '
              'of every number literal, operator and the comment is known: a token of kind Number / Operator / Comment with exactly that span '
-             'must be reported; based literals are number literals; a few lines are longer than 65 536 characters. non-trivial = a line with at least one token; distinct = distinct (language, line)'),
+             'must be reported; based literals are number literals; a few lines are longer than 65 536 characters; percent literals with thousands groups and a fraction; typographic look-alikes (U+2212, U+00A0, ...) between tokens. non-trivial = a line with at least one token; distinct = distinct (language, line)'),
     'min_nontrivial': 3000,
     'budget_s': {'quick': 35, 'thorough': 360},
     'assumptions': ['magnitude suffixes are not used in the structured lines (whether "5k" is one literal or a number plus a symbol is not fixed by the statement)'],
